@@ -719,3 +719,57 @@ def _quiescence_oracle(sim, env, case, ci):
                   "detail": "stream written during the %d ms after the call"
                             % HORIZON_MS})
     return v
+
+
+# ---------------------------------------------------------------------------
+# evidence
+
+TIERS = {"quick": {"runs": 3000, "budget": 60.0, "cap": 90.0},
+         "thorough": {"runs": 400000, "budget": 900.0, "cap": 180.0}}
+
+RULE = ("each run = one seeded case (API x progress type x fault kind/step x "
+        "scheduler parameters) executed under the baton scheduler; a run is "
+        "non-trivial if a timer fired, a fault fired or a context switch "
+        "happened; distinct = distinct event-log digests among non-trivial "
+        "runs")
+
+COMPONENTS = {
+    "real": ["oqupy (all of it, from /repo working tree)", "numpy/scipy",
+             "tensornetwork", "Python threads running the callbacks",
+             "ProcessPool tasks (forked children, pickled arguments/results)"],
+    "stub": ["threading.Timer -> SimTimer (virtual clock)",
+             "time.time -> virtual clock", "sys.stdout -> recording stream",
+             "threading.Lock/RLock/Event inside oqupy.util -> SimLock etc.",
+             "concurrent.futures executors -> SimThreadPool/SimProcessPool",
+             "OS scheduler -> seeded decisions at LINE events of oqupy.util"],
+}
+
+ASSUMPTIONS = [
+    "pre-emption granularity is one source line of oqupy.util; interleavings "
+    "inside a line or inside numpy/tensornetwork are not explored",
+    "the caller is pre-empted only inside oqupy.util, at user callables and "
+    "at stream writes (the two threads share nothing but the progress object)",
+    "SimTimer mirrors threading.Timer: double start raises, cancel before "
+    "start suppresses the function, cancel after firing is a no-op",
+]
+
+
+def summarize(results):
+    pairs = set()
+    switches = set()
+    apis = {}
+    for r in results:
+        pairs.update(r.get("pairs", []))
+        switches.update(r.get("switches", []))
+        c = r.get("case", {})
+        k = "%s/%s" % (c.get("api"), c.get("progress"))
+        apis[k] = apis.get(k, 0) + 1
+    return {
+        "interleavings": {
+            "definition": "distinct (callback line, caller line) pairs at "
+                          "which a context switch between the timer callback "
+                          "and the calling thread happened",
+            "count": len(pairs),
+            "switch_points": len(switches)},
+        "api_progress_matrix": apis,
+    }
